@@ -301,3 +301,16 @@ package interp
 //@   exec (f) (ret)
 //@   exec-ensures the-location-designates-the-host-variable-itself: getFrame(f, l).data[i] == v
 //@   exec-ensures continues: ret == next
+
+// send (the generator of `ch <- v`): the value is prepared for the ELEMENT type of the channel, and the
+// element type is taken with chanElement, which knows every representation of a channel type — a channel
+// supplied by the host has a reflect type and no interpreter element type (c0.typ.val is nil for it).
+//@ trusted func chanElement(t) (r)
+//@   pure
+//@ func send(n)
+//@   props C07
+//@   opt safety = off
+//@   opt opaque-calls = *
+//@   opt opaque-havoc = none
+//@   opt call-guard:genDestValue = arg(0) == chanElement(n.child[0].typ) && arg(1) == n.child[1]
+//@   requires [assume] n != nil && n.interp != nil && len(n.child) == 2 && n.child[0] != nil && n.child[1] != nil && n.child[0].typ != nil
